@@ -268,8 +268,26 @@ def build_evidence(pid, tier, seed, pm, jobs, results, worlds, wall, known_hits,
     steps = 0
     per_world = {}
     statsum = {}
+    obj_states = set()
+    obj_histories = set()
+    rng_positions = set()
+    from .gens import shape_of
     for res in results:
         trace = res["job"]["trace"]
+        per_obj = {}
+        for s_, r_ in zip(trace["steps"], res["steps"]):
+            if r_.get("obj_after"):
+                obj_states.add(r_["obj_after"])
+            if r_.get("rng_before"):
+                rng_positions.add(r_["rng_before"])
+            if s_["k"] in ("call", "bad") and "obj" in s_:
+                a0 = s_["args"][0] if s_.get("args") else None
+                per_obj.setdefault(s_["obj"], []).append(
+                    (s_["k"], s_.get("meth"), str(shape_of(a0)), "+".join(sorted(s_.get("fault") or {})), r_.get("ok")))
+        cfgs = {s_["obj"]: (s_["cls"], json.dumps(s_.get("cfg", {}), sort_keys=True))
+                for s_ in trace["steps"] if s_["k"] == "new"}
+        for o, h in per_obj.items():
+            obj_histories.add((cfgs.get(o), tuple(h)))
         sig = pm.signature(trace, res)
         sigs.add(sig)
         if pm.nontrivial(trace, res):
@@ -319,6 +337,12 @@ def build_evidence(pid, tier, seed, pm, jobs, results, worlds, wall, known_hits,
         "evaluations": len(results),
         "distinct_nontrivial": len(nontriv),
         "distinct_traces": len(sigs),
+        "distinct_states_measure": {
+            "distinct_per_object_call_histories": len(obj_histories),
+            "distinct_solver_state_digests": len(obj_states),
+            "distinct_global_rng_states_at_invoke": len(rng_positions),
+            "measure": "per-object history = (class, configuration, [(op, method, problem shape, fault kinds, outcome)...]); "
+                       "solver state = SHA-256 of the solver's __dict__ after a call; RNG state = digest of np.random.get_state() at invoke"},
         "rule": pm.RULE if hasattr(pm, "RULE") else
         "one evaluation = one seeded simulated run (a trace of steps executed in a forked world); "
         "distinct = distinct trace signature (pm.signature); non-trivial per pm.nontrivial",
